@@ -394,6 +394,9 @@ func goroot() string {
 
 func stdCorpus() {
 	root := filepath.Join(goroot(), "src")
+	if r, err := filepath.EvalSymlinks(root); err == nil {
+		root = r
+	}
 	xctx := gbuild.NewBuildContext("", nil)
 	user := map[string]bool{}
 	var pkgs []string
@@ -444,6 +447,10 @@ func stdCorpus() {
 		var got []string
 		if err != nil {
 			if _, ok := err.(*build.NoGoError); !ok {
+				ev.Count("std_import_errors", 1)
+				if os.Getenv("VERIF_DEBUG") != "" {
+					fmt.Println("std import", ip, err)
+				}
 				continue // not importable (e.g. directories without packages)
 			}
 		}
